@@ -1,0 +1,17 @@
+//go:build verif
+
+// Contracts for the deductive verifier in /verif (comment-only: adds no declarations).
+package admincache
+
+//@ use time
+
+// C08: a cached admin verdict is valid only while it is younger than the cache's maximum age
+//@ func (*Cache).isValid
+//@   ensures ret0 ==> timeNanos(ts) != 0 && nowNanos() - timeNanos(ts) < int64(c.maxDuration)          #C08.cache-entry-young @C08
+//@ func (*Cache).get
+//@   ensures valid ==> c != nil && hasKey(c.data, user) ==> true
+//@   ensures valid ==> c != nil && timeNanos(c.data[user].Ts) != 0 && nowNanos() - timeNanos(c.data[user].Ts) < int64(c.maxDuration) && isAdmin == c.data[user].IsAdmin  #C08.cache-get @C08
+
+// the cache reads the wall clock (newForTesting can inject another one; production uses kSystemClock)
+//@ trusted iface (github.com/Cloud-Foundations/keymaster/keymasterd/admincache.clock).Now func(c clock) (ret0 time_.Time)
+//@   returns nanosTime(nowNanos())
